@@ -1066,6 +1066,28 @@ def rule_entry_guard(prog):
                     "yields a bogus range or indexes an empty token slice; the sibling handlers test is_default() first")
     if n == 0:
         out.missing("entry.to_text_range(..) sites in feature handlers")
+    # go-to-type-definition: a name that is bound to a *type* is answered with that type's own declaration; a name bound to a variable
+    # or parameter with the declaration its data type was created by.  One arm that takes both kinds computes one of the two for both
+    # (for `type b = a;` the creator of b's data type is a).
+    td = [b for b in c.bodies if b["p"].startswith("lsp4spl::features::goto") and "/tests" not in c.file_of(b["sp"]) and
+          ("type_definition" in b["p"] or "type_def" in b["name"])]
+    merged, n_arms = None, 0
+    for b in td:
+        for m_ in hir.nodes_deep(prog, b["body"], 2, crate=c):
+            if m_.get("k") != "Match":
+                continue
+            for a_ in m_["arms"]:
+                vs_ = {last(v_) for v_ in hir.pat_variants_all(a_["pat"]) if v_.startswith("spl_frontend::table::Entry::") or
+                       v_.startswith("spl_frontend::table::GlobalEntry::")}
+                if vs_:
+                    n_arms += 1
+                if "Type" in vs_ and vs_ & {"Variable", "Parameter"}:
+                    merged = merged or (b, a_)
+    if n_arms:
+        out.add("features::goto::type_definition", "a type entry and a variable entry are answered by arms of their own", merged is None,
+                c.loc(merged[1]["sp"]) if merged else "", "one arm takes `Entry::Type` together with `Entry::Variable` / `Entry::Parameter`: the type "
+                "identifier is resolved through the creator of its data type like a variable - `type b = a;` answers the declaration of `a`, "
+                "an alias of `int` answers nothing (%d arms looked at)" % n_arms, ("typeentry",))
     return out
 
 
@@ -1480,6 +1502,40 @@ def rule_semtok_pairing(prog):
                 ok = g_ok and pos_ok
             out.add(b["d"], "previous position advances exactly when a semantic token is emitted, to that token's start", ok, loc_,
                     "delta encoding is stateful: the base must be updated iff a token is emitted for this source token, with the start of that token")
+    # the `declaration` modifier: the name range of a *table entry* counts tokens from the first token of the declaration that owns the
+    # entry.  Compared with an index into the tokens that are being walked it needs that entry's `range.start` beside it
+    # (`param.range.start + param.name.to_range().end == index + 1`) - on its own it is only meaningful for the node that is walked
+    # (`td.name.to_range().end == index + 1`), not for whatever entry a name in it was looked up to
+    n_decl, bad_decl = 0, None
+    for b in c.bodies:
+        if not b["p"].startswith("lsp4spl::features::semantic_tokens") or "/tests" in c.file_of(b["sp"]):
+            continue
+        for cmp_ in hir.nodes(b["body"], "Binary"):
+            if cmp_["op"] not in ("==", "!=", "<", "<=", ">", ">="):
+                continue
+            for side in (cmp_["l"], cmp_["r"]):
+                for tr in hir.nodes(side, "MethodCall"):
+                    if tr["m"] != "to_range":
+                        continue
+                    r_ = hir.strip_ref(tr["recv"])
+                    if not (r_.get("k") == "Field" and r_["name"] == "name"):
+                        continue
+                    owner = hir.strip_ref(r_["base"])
+                    ot_ = hir.adt_path(c, owner["t"]) or ""
+                    for ad_ in owner.get("adj") or []:
+                        ot_ = hir.adt_path(c, ad_["to"]) or ot_
+                    if not (ot_.startswith("spl_frontend::table::") and ot_.endswith("Entry")):
+                        continue
+                    n_decl += 1
+                    op_ = place(owner)
+                    has_range = any(f_.get("k") == "Field" and f_["name"] == "range" and place(hir.strip_ref(f_["base"])) == op_ for f_ in hir.nodes(side))
+                    if not has_range:
+                        bad_decl = bad_decl or (b, cmp_)
+    out.add("semantic_tokens", "the name range of a table entry is compared with a token index only together with that entry's range", bad_decl is None,
+            c.loc(bad_decl[1]["sp"]) if bad_decl else "", ("%s compares `<entry>.name.to_range()` with an index on its own; " % bad_decl[0]["d"] if bad_decl else "") +
+            "the entry of a *used* type counts from its own declaration, the index from the declaration that is walked: where the two happen "
+            "to coincide (a two-line doc comment in front of `type vector = ..`, `type alias = vector;`) the use of the type is marked as a "
+            "declaration (%d comparisons looked at)" % n_decl, ("declframe",))
     if n_units < 1:
         out.missing("assignments to the delta base (a Position) in per-token code of features::semantic_tokens (found %d)" % n_units)
     # every delta is computed against the current base: the Position handed to a token constructor (a function of the module that
@@ -1592,6 +1648,22 @@ def rule_fmt_pure(prog):
     out.add("formatting::fmt", "rendered text is put together, not rewritten by content", None if (bad_rw is None and undec_rw is not None) else bad_rw is None,
             c.loc((bad_rw or undec_rw or fmt_bodies[0])["sp"]), "a character other than the line feed is replaced in rendered text: a lexeme that contains it "
             "(a raw tab in a character literal, with insertSpaces) becomes another token or none, the formatted program is a different one", ("rewrite",))
+
+    # ... and it is a function of the document and the options of *this* request: the formatter keeps nothing between requests (a memo
+    # of the last result, a cached indentation unit - process-wide state answers a later request with an earlier request's text)
+    stateful = None
+    for b in fmt_bodies:
+        for x in hir.nodes(b["body"], "Path"):
+            r_ = x["res"]
+            if r_.get("k") == "Def" and str(r_.get("dk", "")).startswith("Static"):
+                t_ = c.tstr(x["t"])
+                if "mutability: Mut" in str(r_.get("dk")) or any(w_ in t_ for w_ in ("Mutex<", "RwLock<", "OnceLock<", "OnceCell<", "LazyLock<", "Lazy<",
+                                                                                  "RefCell<", "Cell<", "Atomic", "thread::LocalKey<")):
+                    stateful = stateful or (b, x)
+    out.add("formatting::fmt", "the formatter keeps no state between requests", stateful is None,
+            c.loc(stateful[1]["sp"]) if stateful else "", ("%s reads / writes the static `%s`; " % (stateful[0]["d"], last(stateful[1]["res"].get("p") or "?")) if stateful else "") +
+            "what a request is answered with then depends on the requests before it: an edit that keeps the tree but respells a literal "
+            "(`10` -> `0xA`) is answered with the text of the earlier request, a request with other options with the earlier unit", ("state",))
 
     def sig(b):
         if "sig_in" not in b:
@@ -2018,6 +2090,52 @@ def rule_comment_pairing(prog):
                     c.loc(n["sp"]), "the text handed to the all-comments helper was rendered by children that re-attach their own comments: "
                     "every comment inside is printed a second time in front of the node (and once more on every further formatting run)",
                     ("once", "nested"))
+    # exactly once (2): the text a helper is applied to was not itself given the comments of the *same* slice - by another helper call
+    # on `<node>.info.slice(..)`, or by a local function that is handed `<node>.info` and applies a helper to its slice
+    for b in c.bodies:
+        if not b["p"].startswith("lsp4spl::features::formatting") or b["p"] in helper_ps or "/tests" in c.file_of(b["sp"]) or b["k"] == "closure":
+            continue
+        defs_b = {l_["pat"]["id"]: l_["init"] for l_ in hir.nodes(b["body"], "Let") if l_["pat"].get("k") == "Binding" and l_.get("init") is not None}
+        for n in helper_calls(b["body"]):
+            if len(n["args"]) < 2:
+                continue
+            so_ = hir.strip_ref(n["args"][1])
+            if not (so_.get("k") == "MethodCall" and so_["m"] == "slice"):
+                continue
+            p_out = place(hir.strip_ref(so_["recv"]))
+            if not p_out:
+                continue
+            roots = [hir.strip(n["args"][0])]
+            pl_ = hir.path_local(roots[0])
+            if pl_ and pl_["id"] in defs_b:
+                roots.append(defs_b[pl_["id"]])
+            dup = None
+            for r_ in roots:
+                for x in hir.nodes(r_, "Call"):
+                    if x is n:
+                        continue
+                    if (hir.callee(x) or "") in helper_ps and len(x["args"]) >= 2:
+                        si_ = hir.strip_ref(x["args"][1])
+                        if si_.get("k") == "MethodCall" and si_["m"] == "slice" and place(hir.strip_ref(si_["recv"])) == p_out:
+                            dup = x
+                        continue
+                    hb = hir.local_callee_body(prog, x)
+                    if hb is None or hb["_crate"] is not c or hb["p"] in helper_ps:
+                        continue
+                    for j_, a_ in enumerate(x["args"]):
+                        if place(hir.strip_ref(a_)) != p_out or j_ >= len(hb["params"]) or hb["params"][j_].get("k") != "Binding":
+                            continue
+                        pid_ = hb["params"][j_]["id"]
+                        for y in helper_calls(hb["body"]):
+                            if len(y["args"]) >= 2:
+                                sy_ = hir.strip_ref(y["args"][1])
+                                if sy_.get("k") == "MethodCall" and sy_["m"] == "slice" and (hir.path_local(hir.strip_ref(sy_["recv"])) or {}).get("id") == pid_:
+                                    dup = x
+            if dup is not None:
+                seen += 1
+                out.add(b["d"], "the comments of a slice are re-attached to its text once", False, c.loc(dup["sp"]),
+                        "the text this helper is applied to was already given the comments of the same slice (`%s`): the comment in front of an "
+                        "empty block `{}` is printed in front of it and again inside it" % p_out.split("#")[0], ("once", "nested"))
     # exactly once: a variant that is printed as its raw token slice (AstInfo::fmt prints every token, comments included) must not be
     # wrapped in a comment helper on top of that - its comments would be printed twice
     raw_variants = {}
@@ -2271,6 +2389,30 @@ def rule_same_finder(prog):
                 "a parameter or variable does not hide a procedure or a type (calls and type positions are syntactically apart): "
                 "for `proc count(count: int)` the collector skips the whole procedure, header name included - references from a call answer "
                 "nothing, rename leaves the declaration as it was", ("globalsearch",))
+    # what the finder found is handed out as it is: nothing drops occurrences by their position in the list (`skip(1)` for "the
+    # declaration comes first": a procedure may be called above its declaration, and with the cursor on a use the declaration is one of
+    # "the other occurrences")
+    PRUNE = ("skip", "take", "step_by", "truncate", "pop", "remove", "swap_remove", "drain", "split_off", "split_first", "split_last", "nth", "last", "first")
+    pruned = None
+    for fn in ("find", "rename"):
+        b = prog.body("lsp4spl::features::references::" + fn)
+        if b is None:
+            continue
+        for mc in hir.nodes_deep(prog, b["body"], 1, crate=c):
+            if mc.get("k") != "MethodCall" or mc["m"] not in PRUNE:
+                continue
+            r_ = hir.strip(mc["recv"])
+            chain_ = []
+            while r_.get("k") == "MethodCall":
+                chain_.append(r_)
+                r_ = hir.strip(r_["recv"])
+            ts_ = [c.tstr(y["t"]) + "".join(c.tstr(a_["to"]) for a_ in y.get("adj") or []) for y in [hir.strip(mc["recv"])] + chain_ + [r_]]
+            if any(("ast::Identifier" in t_ or "features::Ident" in t_) and ("Vec<" in t_ or "Iter" in t_ or "[" in t_) for t_ in ts_):
+                pruned = pruned or (b, mc)
+    out.add("references", "the occurrences found are handed out as they are (none dropped by its position in the list)", pruned is None,
+            c.loc(pruned[1]["sp"]) if pruned else "", ("`.%s(..)` on the occurrences in %s; " % (pruned[1]["m"], pruned[0]["d"]) if pruned else "") +
+            "find-references answers exactly the other occurrences of the binding: dropping `the first` one loses a call that stands above the "
+            "declaration, or the declaration itself when the request was made on a use", ("pruned",))
     out.add("references", "find and rename use the same finder with the same arguments",
             (len(sigs["find"]) == 1 and sigs["find"] == sigs["rename"]) if (sigs["find"] or sigs["rename"]) else None, "",
             "find: %s rename: %s" % (sigs["find"], sigs["rename"]))
